@@ -7,7 +7,7 @@ from .. import world, driver
 from ..worldprop import base_outcome, completion, REAL_VS_STUB  # noqa
 
 ID = "C01"
-RUNS = {"quick": 9000, "thorough": 250000}
+RUNS = {"quick": 14400, "thorough": 250000}
 BUDGET = {"quick": 45, "thorough": 780}
 RULE = ("worlds from dsim.world (1-8 stations, chains of sessions per station with back-to-back reuse and "
         "shared 'hot' timestamps, extra recompute events, all parties); non-trivial = run with >=1 back-to-back "
